@@ -1137,6 +1137,18 @@ def genctx_program():
             ],
         ),
         fn(
+            # advances a generator that somebody else created (the module global GEN) from inside
+            # its own call: the generator then runs under this activation
+            "pump",
+            ["p"],
+            [
+                ["bind", "q", V],
+                ["bind", "r", ["next", "GEN"]],
+                ["bind", "s", ["call", "g", [V]]],
+                ["ret", var("r")],
+            ],
+        ),
+        fn(
             # a generator that drives another one: both are suspended at the same time, and the
             # inner one runs again only when the outer one is advanced
             "gen7",
